@@ -78,7 +78,11 @@ func evalC13l(c c13lCase) (f *Failure, nontrivial bool) {
 					}
 					mu.Unlock()
 				},
-				OnClose: func(r eio.Reason, err error) { mu.Lock(); closesS = append(closesS, fmt.Sprintf("%s:%v", r, err)); mu.Unlock() },
+				OnClose: func(r eio.Reason, err error) {
+					mu.Lock()
+					closesS = append(closesS, fmt.Sprintf("%s:%v", r, err))
+					mu.Unlock()
+				},
 			}
 		}, cfg)
 		_ = server.Run()
@@ -139,7 +143,7 @@ func evalC13l(c c13lCase) (f *Failure, nontrivial bool) {
 			return true
 		}
 		switch c.Path {
-		case "c2s-polling-length", "c2s-polling-chunked":
+		case "c2s-polling-length", "c2s-polling-chunked", "c2s-jsonp-length", "c2s-jsonp-chunked":
 			resp, err := hc.Get("http://x/engine.io/?EIO=4&transport=polling")
 			if err != nil {
 				res = fail("rig-connect", "handshake: "+err.Error())
@@ -159,13 +163,24 @@ func evalC13l(c c13lCase) (f *Failure, nontrivial bool) {
 			if !checkAnnounced() {
 				return
 			}
+			jsonp := strings.HasPrefix(c.Path, "c2s-jsonp")
 			post := func(data []byte) (int, error) {
+				if jsonp {
+					data = append([]byte("d="), data...) // the JSON-P way: a form field (the payloads used here need no escaping)
+				}
 				var rd io.Reader = bytes.NewReader(data)
-				if c.Path == "c2s-polling-chunked" {
+				if strings.HasSuffix(c.Path, "-chunked") {
 					rd = struct{ io.Reader }{rd} // no known length: Transfer-Encoding: chunked
 				}
-				req, _ := http.NewRequest("POST", "http://x/engine.io/?EIO=4&transport=polling&sid="+open.Sid, rd)
+				u := "http://x/engine.io/?EIO=4&transport=polling&sid=" + open.Sid
+				if jsonp {
+					u += "&j=0"
+				}
+				req, _ := http.NewRequest("POST", u, rd)
 				req.Header.Set("Content-Type", "text/plain;charset=UTF-8")
+				if jsonp {
+					req.Header.Set("Content-Type", "application/x-www-form-urlencoded")
+				}
 				resp, err := hc.Do(req)
 				if err != nil {
 					return 0, err
@@ -180,9 +195,12 @@ func evalC13l(c c13lCase) (f *Failure, nontrivial bool) {
 					return
 				}
 			}
+			if jsonp {
+				packetLen += 2 // "d=" is part of the body the limit applies to
+			}
 			code, err := post(append([]byte{'4'}, payload...))
 			settle(2 * time.Second)
-			verdict(fmt.Sprintf("POST (%s, status %d, err %v)", strings.TrimPrefix(c.Path, "c2s-polling-"), code, err))
+			verdict(fmt.Sprintf("POST (%s, status %d, err %v)", strings.TrimPrefix(c.Path, "c2s-"), code, err))
 		case "c2s-websocket", "c2s-upgraded-websocket":
 			ctx := context.Background()
 			var conn *websocket.Conn
@@ -271,7 +289,11 @@ func evalC13l(c c13lCase) (f *Failure, nontrivial bool) {
 					}
 					mu.Unlock()
 				},
-				OnClose: func(r eio.Reason, err error) { mu.Lock(); closesC = append(closesC, fmt.Sprintf("%s:%v", r, err)); mu.Unlock() },
+				OnClose: func(r eio.Reason, err error) {
+					mu.Lock()
+					closesC = append(closesC, fmt.Sprintf("%s:%v", r, err))
+					mu.Unlock()
+				},
 			}, &eio.ClientConfig{Transports: transports, HTTPTransport: tr, WebSocketDialOptions: &websocket.DialOptions{HTTPClient: hc}})
 			if err != nil {
 				res = fail("rig-connect", "dial: "+err.Error())
@@ -323,7 +345,7 @@ func evalC13l(c c13lCase) (f *Failure, nontrivial bool) {
 
 func genC13lCase(t *rapid.T) c13lCase {
 	c := c13lCase{Limit: rapid.SampledFrom([]int64{100, 1000, 40000, 0, -1}).Draw(t, "limit"),
-		Path:   rapid.SampledFrom([]string{"c2s-polling-length", "c2s-polling-chunked", "c2s-websocket", "c2s-upgraded-websocket", "s2c-polling", "s2c-websocket"}).Draw(t, "path"),
+		Path:   rapid.SampledFrom([]string{"c2s-polling-length", "c2s-polling-chunked", "c2s-jsonp-length", "c2s-jsonp-chunked", "c2s-websocket", "c2s-upgraded-websocket", "s2c-polling", "s2c-websocket"}).Draw(t, "path"),
 		Binary: rapid.Bool().Draw(t, "binary"), Before: rapid.IntRange(0, 2).Draw(t, "before")}
 	lim := c.Limit
 	if lim <= 0 {
@@ -356,7 +378,7 @@ func genC13lCase(t *rapid.T) c13lCase {
 func TestC13_Limits(t *testing.T) {
 	setT(t)
 	defer startWatchdog(t, 90*time.Second)()
-	ev := NewEv(t, "C13", c13lCheck, "rapid on the virtual-time network at Engine.IO level: MaxBufferSize in {100, 1000, 40000, default 1e6, disabled} x path {POST with Content-Length, POST with chunked body, "+
+	ev := NewEv(t, "C13", c13lCheck, "rapid on the virtual-time network at Engine.IO level: MaxBufferSize in {100, 1000, 40000, default 1e6, disabled} x path {POST with Content-Length, POST with chunked body, the same two the JSON-P way (form field d, j= in the query), "+
 		"WebSocket message (text / binary) on a session opened over WebSocket or upgraded to it by hand} from hand-written peers, and server -> client over {long-polling, WebSocket} to the real client; message sizes limit +- 12, limit/2, 2 x and 10 x the limit, "+
 		"32768 +- 12, 65536 +- 12, 0; 0..2 small messages first. Oracle (limit = maxPayload announced in the handshake, which must equal the configuration): a packet within the limit is delivered to the "+
 		"handler with its full length and nothing closes; a message more than one byte beyond the limit never reaches the handler and the connection is closed; with the limit disabled everything is accepted; "+
